@@ -33,9 +33,11 @@ props! {
     c27 => "C27",
     c28 => "C28",
     c29 => "C29",
+    c30 => "C30",
     c31 => "C31",
     c32 => "C32",
     c33 => "C33",
+    c34 => "C34",
     c35 => "C35",
     c36 => "C36",
 }
